@@ -179,9 +179,9 @@ func (t Tri) L3(attr string) geometry.Line3D {
 
 func (t Tri) Plane(attr string) geometry.Plane {
 	return geometry.NewPlaneFromPoints(
-		t.P1Vec3Attr(PositionAttribute),
-		t.P2Vec3Attr(PositionAttribute),
-		t.P3Vec3Attr(PositionAttribute),
+		t.P1Vec3Attr(attr),
+		t.P2Vec3Attr(attr),
+		t.P3Vec3Attr(attr),
 	)
 }
 
@@ -261,11 +261,15 @@ func (t Tri) RayIntersects(ray geometry.Ray) (vector3.Float64, bool) {
 
 // https://gdbooks.gitbooks.io/3dcollisions/content/Chapter4/point_in_triangle.html
 func (t Tri) PointInSide(p vector3.Float64) bool {
+	return t.pointInSide(PositionAttribute, p)
+}
+
+func (t Tri) pointInSide(attr string, p vector3.Float64) bool {
 	// Move the triangle so that the point becomes the
 	// triangles origin
-	a := t.P1Vec3Attr(PositionAttribute).Sub(p)
-	b := t.P2Vec3Attr(PositionAttribute).Sub(p)
-	c := t.P3Vec3Attr(PositionAttribute).Sub(p)
+	a := t.P1Vec3Attr(attr).Sub(p)
+	b := t.P2Vec3Attr(attr).Sub(p)
+	c := t.P3Vec3Attr(attr).Sub(p)
 
 	// Compute the normal vectors for triangles:
 	// u = normal of PBC
@@ -306,7 +310,7 @@ func (t Tri) LineIntersects(line geometry.Line3D) (vector3.Float64, bool) {
 func (t Tri) ClosestPoint(attr string, p vector3.Float64) vector3.Float64 {
 	closestPoint := t.Plane(attr).ClosestPoint(p)
 
-	if t.PointInSide(closestPoint) {
+	if t.pointInSide(attr, closestPoint) {
 		return closestPoint
 	}
 
